@@ -1,7 +1,7 @@
 (* Props/C06.v — deme lifecycle: one metaepoch per step while active and awake; stopping is final. *)
 From Coq Require Import List Bool Arith.
 From HV Require Import Ord Sprout Tree TreeLemmas TreeInv TreeRun.
-From HV Require Import DriverPrim Driver DriverFacts GenDriver GenEquivDriver DriverCode.
+From HV Require Import DriverPrim Driver DriverFacts GenDriver GenEquivDriver DriverCode GenStops GenEquivStops.
 Import ListNotations.
 
 (* between metaepochs (and whenever no deme is mid-metaepoch): every deme has advanced by exactly one metaepoch if it was
@@ -62,3 +62,21 @@ Print Assumptions C06_translated_code_stepped_once.
 Theorem C06_translated_code_moments_are_reachable c fuel n evs s : code_moment c fuel n evs s -> reach c n s.
 Proof. exact (code_moment_reach c fuel n evs s). Qed.
 Print Assumptions C06_translated_code_moments_are_reachable.
+
+(* ---------------------------------------------------------------- the shipped local stop conditions, TRANSLATED from the current
+   pyhms/stop_conditions/usc.py and lsc.py (Gen/GenStops.v): each only looks and answers exactly what the machine takes as the verdict
+   of the deme's local stop condition (FitnessSteadiness, a float average, stays an oracle) *)
+Theorem C06_translated_MetaepochLimit c fuel n d s :
+  exists b, answers (gen_MetaepochLimit_deme c fuel n d) s b /\ lsc_eval (LMetaLimit n) d (demes (ms s)) = Some b.
+Proof. exact (MetaepochLimit_deme_ok c fuel n d s). Qed.
+Print Assumptions C06_translated_MetaepochLimit.
+Theorem C06_translated_AllChildrenStopped c fuel d s :
+  exists b, answers (gen_AllChildrenStopped c fuel d) s b /\ lsc_eval LAllChildrenStopped d (demes (ms s)) = Some b.
+Proof. exact (AllChildrenStopped_ok c fuel d s). Qed.
+Print Assumptions C06_translated_AllChildrenStopped.
+Theorem C06_translated_DontStop c fuel d s : exists b, answers (gen_DontStop_deme c fuel d) s b /\ lsc_eval LDontStop d (demes (ms s)) = Some b.
+Proof. exact (DontStop_deme_ok c fuel d s). Qed.
+Print Assumptions C06_translated_DontStop.
+Theorem C06_translated_DontRun c fuel d s : exists b, answers (gen_DontRun_deme c fuel d) s b /\ lsc_eval LDontRun d (demes (ms s)) = Some b.
+Proof. exact (DontRun_deme_ok c fuel d s). Qed.
+Print Assumptions C06_translated_DontRun.
